@@ -139,10 +139,10 @@ theorem params_at_their_positions (args : List Nat) (tyOf : Nat → String) (use
 example : emitLocals [10, 11] (fun l => if l = 12 then "f64" else if l = 14 then "i32" else "f64") [10, 12, 13, 14]
     = ([(1, "i32"), (2, "f64")], [(10, 0), (11, 1), (14, 2), (12, 3), (13, 4)]) := by decide
 
-example : (brun [] [.dangling .empty, .push 0 (.leaf ⟨"I32Const", [.imm "1"]⟩), .dangling .empty,
+example : (brun [] [.dangling .empty, .push 0 (.leaf ⟨"I32Const", [.num 1]⟩), .dangling .empty,
     .push 1 (.br 0), .insertAt 0 1 (.block 1), .insertAt 0 1 (.leaf ⟨"Drop", []⟩)]).map
       (fun st => emitBodyFuel {} st.toArena 20 0)
-    = some (some [⟨"I32Const", [.imm "1"]⟩, ⟨"Drop", []⟩, ⟨"Block", [.bt "e"]⟩, ⟨"Br", [.ref "l" 1]⟩,
+    = some (some [⟨"I32Const", [.num 1]⟩, ⟨"Drop", []⟩, ⟨"Block", [.bt .empty]⟩, ⟨"Br", [.ref "l" 1]⟩,
                   ⟨"End", []⟩, ⟨"End", []⟩]) := by decide
 
 end C15
